@@ -121,9 +121,16 @@ macro_rules! apply_claim {
             ClaimSpec::Sub(s) => go!(SubjectClaim::from($arena.str(s))),
             ClaimSpec::Aud(s) => go!(AudienceClaim::from($arena.str(s))),
             ClaimSpec::Jti(s) => go!(TokenIdentifierClaim::from($arena.str(s))),
+            // both constructors of the time claims are exercised (chosen by the parity of the text length,
+            // so that a run stays a pure function of its event list)
+            ClaimSpec::Exp(s) if s.len() % 2 == 0 => go_res!(ExpirationClaim::try_from(s.clone())),
+            ClaimSpec::Nbf(s) if s.len() % 2 == 0 => go_res!(NotBeforeClaim::try_from(s.clone())),
+            ClaimSpec::Iat(s) if s.len() % 2 == 0 => go_res!(IssuedAtClaim::try_from(s.clone())),
             ClaimSpec::Exp(s) => go_res!(ExpirationClaim::try_from(s.as_str())),
             ClaimSpec::Nbf(s) => go_res!(NotBeforeClaim::try_from(s.as_str())),
             ClaimSpec::Iat(s) => go_res!(IssuedAtClaim::try_from(s.as_str())),
+            // CustomClaim::try_from(&str): the key-only constructor (its value is the empty string)
+            ClaimSpec::Custom { key, value } if value.as_str() == Some("") && key.len() % 2 == 1 => go_res!(CustomClaim::try_from(key.as_str())),
             ClaimSpec::Custom { key, value } => go_res!(CustomClaim::try_from((key.clone(), value.clone()))),
             ClaimSpec::CustomRef { key, value } => go_res!(CustomClaim::try_from((key.as_str(), value.clone()))),
             ClaimSpec::Bare { key, value } => go!(BareClaim { key: key.clone(), value: value.clone() }),
@@ -652,6 +659,14 @@ macro_rules! builder_impl {
             fn op(&mut self, op: &BOp, arena: &Arena) -> bool {
                 let b = &mut self.0;
                 match op {
+                    BOp::ExtendClaims(m) => {
+                        let mut hm: HashMap<String, Box<dyn erased_serde::Serialize>> = HashMap::new();
+                        for (k, v) in m {
+                            hm.insert(k.clone(), Box::new(v.clone()));
+                        }
+                        b.extend_claims(hm);
+                        true
+                    }
                     BOp::SetClaim(c) => apply_claim!(b, set_claim, c, arena),
                     BOp::RemoveClaim(k) => {
                         b.remove_claim(k);
@@ -677,6 +692,7 @@ macro_rules! builder_impl {
             fn op(&mut self, op: &BOp, arena: &Arena) -> bool {
                 let b = &mut self.0;
                 match op {
+                    BOp::ExtendClaims(_) => false,
                     BOp::SetClaim(c) => apply_claim!(b, set_claim, c, arena),
                     BOp::RemoveClaim(_) => false,
                     BOp::Ack => {
@@ -821,6 +837,7 @@ pub fn core_issue(
     footer: Option<&str>,
     assertion: Option<&str>,
     order: u8,
+    rebuild: bool,
 ) -> Result<Outcome, String> {
     let steps = SETTER_ORDERS[(order as usize) % 6];
     if !proto.available() {
@@ -851,6 +868,11 @@ pub fn core_issue(
                     }
                 }
             }
+            if rebuild {
+                // the same core builder object issues a second token: only the payload is set again
+                let _ = b.try_encrypt(&key, &n);
+                b.set_payload(Payload::from(payload));
+            }
             Ok(ok_str(b.try_encrypt(&key, &n)))
         }};
         (@assert yes, $b:ident) => {
@@ -880,6 +902,10 @@ pub fn core_issue(
                         local!(@assert $assert, b);
                     }
                 }
+            }
+            if rebuild {
+                let _ = b.try_sign(&key);
+                b.set_payload(Payload::from(payload));
             }
             Ok(ok_str(b.try_sign(&key)))
         }};
@@ -939,6 +965,10 @@ pub fn core_issue(
                         }
                     }
                 }
+            }
+            if rebuild {
+                let _ = b.try_sign(&key);
+                b.set_payload(Payload::from(payload));
             }
             Ok(ok_str(b.try_sign(&key)))
         }
@@ -1106,7 +1136,7 @@ impl World {
                 }
                 Obs::Build { result, draws, reads }
             }
-            Op::CoreIssue { proto, key, nonce_hex, payload, footer, assertion, out, order } => {
+            Op::CoreIssue { proto, key, nonce_hex, payload, footer, assertion, out, order, rebuild } => {
                 let km = match self.keys.get(*key) {
                     Some(k) => k.clone(),
                     None => return Obs::Skipped("no such key".into()),
@@ -1116,7 +1146,7 @@ impl World {
                     Err(_) => return Obs::Skipped("bad nonce hex".into()),
                 };
                 env::set_clock(0, &[]);
-                let r = env::guarded(|| core_issue(*proto, &km, &nonce, payload, footer.as_deref(), assertion.as_deref(), *order));
+                let r = env::guarded(|| core_issue(*proto, &km, &nonce, payload, footer.as_deref(), assertion.as_deref(), *order, *rebuild));
                 match r {
                     Ok(Ok(o)) => {
                         if let Outcome::OkStr(t) = &o {
